@@ -135,8 +135,10 @@ func (queue *SafeQueue) HeadItem() (res *amqp.Message) {
 func (queue *SafeQueue) DirtyPurge() {
 	queue.shards = [][]*amqp.Message{make([]*amqp.Message, queue.shardSize)}
 	queue.tailIdx = 0
+	queue.tailPos = 0
 	queue.tail = queue.shards[queue.tailIdx]
 	queue.headIdx = 0
+	queue.headPos = 0
 	queue.head = queue.shards[queue.headIdx]
 	queue.length = 0
 }
